@@ -394,6 +394,22 @@ class Interp:
         else:
             raise AssertionError(a)
         consumed = [u for u in used if u is not r] + [p for p in parts(r) if p is not r]
+        if id(r) in self.tags:
+            # The call handed back an object that already existed (qp.prod(op) -> op, eager adjoint of Adjoint(x) -> x):
+            # no operator was created, so the property does not say whether it is (re-)recorded.  The other operands must
+            # still leave; for the returned object the model adopts what happened in the active context.
+            top = self.ref.top()
+            self.trace.append("existing-object-returned")
+            self.opvars.append(r)
+            self.anyvars.append(r)
+            if top is not None:
+                for c in consumed:
+                    top[:] = [t for t in top if t is not c]
+                if any(o is r for o in self.open[-1].queue):
+                    Ref.put(top, r)
+                else:
+                    top[:] = [t for t in top if t is not r]
+            return None
         self.new(r, "op", a, consumed)
         # Undecided by the property: a DEEPER constituent of the result that is still recorded on its own in the active
         # list (possible only if it was wrapped in another context / under stop_recording before).  Lazy wrappers leave
